@@ -41,7 +41,7 @@ fn strategy(_tier: Tier) -> BoxedStrategy<Case> {
         history_strategy(cfg),
         prop::collection::vec(any::<u16>(), 0..4),
         prop::bool::weighted(0.2),
-        prop::option::weighted(0.15, any::<u16>()),
+        prop::option::weighted(0.3, any::<u16>()),
     )
         .prop_map(|(hist, sel, dry_run, missing_block)| Case { hist, sel, dry_run, missing_block })
         .boxed()
@@ -235,6 +235,12 @@ fn run(case: &Case, cx: &mut Cx) -> CaseResult {
 /// referenced by a kept version must still be there afterwards, and the kept versions must
 /// restore exactly as they did just before the delete.
 fn run_with_missing_block(w: &World, requested: &[u32], frac: u16, cx: &mut Cx) -> CaseResult {
+    // Two bits of the generated value choose the shape: collect garbage first (so that every
+    // present block is referenced when the damage happens), and/or make the delete a pure gc.
+    let requested: &[u32] = if frac & 1 == 1 { &[] } else { requested };
+    if frac & 2 == 2 {
+        let _ = ops::delete_bands(&w.arch, &None, &[], false, false);
+    }
     let pre0 = format::scan(&w.arch);
     let blocks: Vec<String> = pre0.blocks.values().filter(|b| b.file_len > 0).map(|b| b.relpath.clone()).collect();
     if blocks.is_empty() {
@@ -345,12 +351,12 @@ pub fn prop() -> Prop<Case> {
     Prop {
         id: "C05",
         level: "fault_enumeration",
-        rule: "case = (history of <=8 ops with backups and interrupted backups, subset of the existing versions to delete incl. none and all, dry-run flag) generated by proptest. Fault-free run: on success the version set is exactly before minus S, every remaining complete version restores exactly, the independent scan finds referenced(kept) subset of present and present minus referenced(kept) empty, stats equal the directory diff; dry run or refusal leaves the directory byte-identical. Inner domain enumerated for successful real deletes: every mutating operation of the delete's logged trace as a crash point (storage frozen before it; quick thins to <=40), and every read/list/metadata operation x {other, not-found, permission-denied} as a single injected failure (quick <=40 ops): afterwards every remaining complete version must restore exactly. Non-trivial case = S non-empty and a block is shared between a deleted and a kept version, or a kept version is incomplete; non-trivial inner = any crash point, or a fault on an index file of a kept band; inner values distinct by construction. 15% of cases instead remove one block file before the delete (a damaged archive): blocks present and referenced by kept versions must survive and kept versions must restore as just before. One fixed scale probe per run: a kept version with 10 015 index hunks beside a version that is deleted",
+        rule: "case = (history of <=8 ops with backups and interrupted backups, subset of the existing versions to delete incl. none and all, dry-run flag) generated by proptest. Fault-free run: on success the version set is exactly before minus S, every remaining complete version restores exactly, the independent scan finds referenced(kept) subset of present and present minus referenced(kept) empty, stats equal the directory diff; dry run or refusal leaves the directory byte-identical. Inner domain enumerated for successful real deletes: every mutating operation of the delete's logged trace as a crash point (storage frozen before it; quick thins to <=40), and every read/list/metadata operation x {other, not-found, permission-denied} as a single injected failure (quick <=40 ops): afterwards every remaining complete version must restore exactly. Non-trivial case = S non-empty and a block is shared between a deleted and a kept version, or a kept version is incomplete; non-trivial inner = any crash point, or a fault on an index file of a kept band; inner values distinct by construction. 30% of cases instead remove one block file before the delete (a damaged archive; optionally after a first garbage collection, optionally making the delete a pure gc): blocks present and referenced by kept versions must survive and kept versions must restore as just before. One fixed scale probe per run: a kept version with 10 015 index hunks beside a version that is deleted",
         assumptions: &[
             "remove_dir_all of a band directory is one atomic transport operation in this model",
             "zero-length block files (leftovers of a killed write) are not counted as blocks",
         ],
-        cases: |t| t.pick(120, 3000),
+        cases: |t| t.pick(120, 600),
         strategy,
         run,
         enumerate: Some(enumerate),
